@@ -100,3 +100,20 @@ Proof.
   apply find_some in E as [Hin Hb]. cbn [fst snd] in Hb. apply andb_prop in Hb as [H1 H2]. apply String.eqb_eq in H1. apply Z.eqb_eq in H2. subst.
   apply in_rev. exact Hin.
 Qed.
+
+(* scalar arguments *)
+Lemma index_try_spec i j : index_try i = Some j <-> (j = i /\ 0 <= i < 4294967296)%Z.
+Proof.
+  unfold index_try. destruct (0 <=? i)%Z eqn:E1; destruct (i <? 4294967296)%Z eqn:E2; cbn [andb]; split; intros H;
+    try discriminate; try (inversion H; subst; split; [reflexivity|lia]); try (destruct H as [-> H]; try reflexivity; exfalso; lia).
+Qed.
+Lemma index_try_never_wraps i : (i < 0 \/ 4294967296 <= i)%Z -> index_try i = None.
+Proof. intros H. destruct (index_try i) as [j|] eqn:E; [|reflexivity]. apply index_try_spec in E. lia. Qed.
+Lemma ts_after_kept old arg : (arg <= 0)%Z -> ts_after old arg = old.
+Proof. intros H. unfold ts_after, ts_arg. destruct (Z.leb_spec arg 0); [reflexivity|lia]. Qed.
+Lemma ts_after_set old arg : (0 < arg)%Z -> ts_after old arg = Some arg.
+Proof. intros H. unfold ts_after, ts_arg. destruct (Z.leb_spec arg 0); [lia|reflexivity]. Qed.
+(* the three 64-bit size / index parameters are converted with try_into, the two optional timestamps by `<= 0 => None`
+   (regenerated from ffi/revocation.rs and ffi/credential.rs) *)
+Lemma ffi_scalar_rules_pinned : gen_ffi_u32_try_into_sites = 3%Z /\ gen_ffi_timestamp_none_sites = 2%Z.
+Proof. split; reflexivity. Qed.
